@@ -322,6 +322,26 @@ def run(rep):
             if miss:
                 bad.append({"access": R.key(c), "missing_guards": miss})
         wr = [R.key(c.get("l") or c["args"][0]) for c, p in R.find(f["body"], lambda x: x.get("k") in ("Assign", "Call") and x.get("op") == "=" and R.key(x.get("l") or x["args"][0]).startswith(dv + "("))]
+        # V4c: the column of the source sample is offset by the kernel's centre column, the row by its centre row
+        axis = []
+        defs = {}
+        for k_, x_, _ in R.effects(f["body"]):
+            m_ = re.match(r"\((%\d+) = ", k_)
+            if m_:
+                defs.setdefault(m_.group(1), []).append(k_)
+        for c, p in reads:
+            xk, yk = R.key(c["args"][1]), R.key(c["args"][2])
+            for nm_, want_, other_ in ((xk, "center_x()", "center_y()"), (yk, "center_y()", "center_x()")):
+                for d_ in defs.get(nm_, []):
+                    if other_ in d_ and want_ not in d_:
+                        axis.append({"coordinate": "column" if want_ == "center_x()" else "row", "defined as": d_[:120]})
+        if axis:
+            rep.count("obligations:V4c")
+            rep.violation("V4c-centre-axis", "V4c:convolve_2d_impl:centre axis", R.fn_where(f0), {"wrong axis": axis[:2],
+                          "example": "2x2 kernel with centre (y=0, x=1): the source window is shifted horizontally by center_y - center_x"})
+        elif reads:
+            rep.count("obligations:V4c")
+            rep.ok("V4c-centre-axis", "V4c:convolve_2d_impl:centre axis " + f["full"][-16:], "column offset by center_x, row offset by center_y")
         if bad or not reads or wr != ["%s(%s,%s)" % (dv, colv, rowv)]:
             rep.violation("V4-2d", "V4:convolve_2d_impl", R.fn_where(f0), {"unguarded_reads": bad, "reads": len(reads), "writes": wr, "view loops (row, column)": [rowv, colv]})
         else:
